@@ -232,6 +232,22 @@ class World:
         return out
 
 
+def observe_all(w: 'World') -> None:
+    """read-only use of every object of the world through the library's own observers (JSON view, statistics,
+    traversals, text, printing): what the statement says about parents, metadata and types must survive being looked
+    at.  The model has no such operation — an observer is the identity on the store — so the store dumped after the
+    observers is compared with the same model store.  An observer that raises (a page without coordinates has no JSON
+    view …) is simply not an observation."""
+    for o in list(w.objs):
+        for f in (lambda: o.json, lambda: o.stats, lambda: o.get_lines(), lambda: o.get_words(),
+                  lambda: o.get_inner_text_regions(), lambda: o.get_text_regions_in_reading_order(),
+                  lambda: repr(o), lambda: o.types, lambda: o.has_type(o.main_type)):
+            try:
+                f()
+            except Exception:  # noqa
+                pass
+
+
 def model_dump(store: List[Dict[str, Any]]) -> List[Dict[str, Any]]:
     out = []
     for n in store:
@@ -1179,7 +1195,13 @@ class C02(Check):
                   'rebuilt objects; the harness\'s own replay list (spec_to_history / json_history) is kept as a second witness.  '
                   'Not proved: that the real parser and builders perform exactly these sequences (that is what the comparison '
                   'samples); in the parser history the cells of a table are created grouped by row (make_rows_from_cells groups '
-                  'them; documents listing one row\'s cells non-contiguously differ in creation order only)')
+                  'them; documents listing one row\'s cells non-contiguously differ in creation order only).  Histories on USED '
+                  'objects (wave 4; an observer is the identity of the model store, so no new model operation): a share of every '
+                  'history family is run with all objects read through the library\'s observers (JSON view, stats, get_lines / '
+                  'get_words / inner regions / reading order, repr, types) after EVERY operation before the store is dumped; a '
+                  'parsed scan is observed, another document with the same ids and the same text are parsed in the same process, '
+                  'and both the first scan\'s objects and the second parse must repeat the first dump; a JSON view is taken twice '
+                  'and rebuilt twice (string and dictionary form), source and rebuilt objects re-dumped afterwards')
     assumptions = [
         'histories are sequences of the modelled operations (constructors, add_child, set_parent, set_as_parent, '
         'the parser\'s attach statements, set_parentage, add_type/remove_type, has_type/types); attributes are not '
@@ -1210,6 +1232,14 @@ class C02(Check):
             out.append(Case('history', {'ops': gen_sharing(rng)}, ['sharing']))
         for _ in range(n // 10):
             out.append(Case('history', {'ops': gen_typealg(rng)}, ['typealg']))
+        # the same families on USED objects: after every operation all objects are read through the library's observers
+        # (JSON view, statistics, traversals); the model store is the same (an observer is the identity)
+        for ops in CORPUS:
+            out.append(Case('history', {'ops': ops, 'observe': True}, ['corpus', 'observed']))
+        for gen_f, share, tag in ((gen_bottom_up, 12, 'bottom-up'), (gen_growth, 12, 'growth'), (gen_sharing, 4, 'sharing'),
+                                  (gen_typealg, 4, 'typealg')):
+            for _ in range(n * share // 100):
+                out.append(Case('history', {'ops': gen_f(rng), 'observe': True}, [tag, 'observed']))
         for _ in range(n // 10):
             out.append(Case('parse', {'spec': gen_parse_spec(rng, rng.choice([0, 1, 2, 3]))}, ['parse']))
         for _ in range(n // 10):
@@ -1231,6 +1261,10 @@ class C02(Check):
                 if 'err' in o:
                     steps.append(o)
                     break
+                if case.input.get('observe'):
+                    # USED objects: everything built so far is looked at through the library's observers before the
+                    # store is dumped (and so before the next operation works on it)
+                    observe_all(w)
                 steps.append({'out': o, 'store': w.dump()})
             return {'steps': steps}
         if case.kind == 'parse':
@@ -1249,6 +1283,25 @@ class C02(Check):
             w2 = World()
             w2.objs = [follow(scan, p) for p in lean_paths]
             out['final_tree'] = w2.dump()
+            # several documents in one process (the model is pure): the first scan is looked at through the observers,
+            # another document (the same ids, another file name) and the same text are parsed, then the first scan's
+            # objects are dumped again and the second parse of the same text is dumped — both must repeat `final`
+            try:
+                observe_all(w)
+                other = dict(spec, file='other_' + str(spec['file']))
+                parse_pagexml_file(other['file'], pagexml_data=spec_to_xml(other))
+                scan2 = parse_pagexml_file(spec['file'], pagexml_data=spec_to_xml(spec))
+                d = diff_dumps(out['final'], w.dump())
+                if d:
+                    out['hist'] = ['reread', f'the parsed objects read again after other documents were parsed: {d}']
+                else:
+                    w3 = World()
+                    w3.objs = [follow(scan2, p) for p in paths]
+                    d = diff_dumps(out['final'], w3.dump())
+                    if d:
+                        out['hist'] = ['second-parse', f'the same text parsed a second time in the same process: {d}']
+            except Exception as e:  # noqa
+                out['hist'] = ['raises-later', f'parsing again / reading the scan again raised {err_name(e)}']
             return out
         if case.kind == 'json':
             from pagexml.parser import parse_pagexml_from_json
@@ -1262,8 +1315,29 @@ class C02(Check):
                 new = parse_pagexml_from_json(text)
             except Exception as e:  # noqa
                 return {'err': err_name(e)}
-            w.objs = w.objs + [follow(new, p) for p in paths]
+            olds = list(w.objs)
+            w.objs = olds + [follow(new, p) for p in paths]
             res = {'final': w.dump(), 'rebuild_ops': ops, 'tree': json_tree(json.loads(text))}
+            # history (the model is pure): the JSON view taken a second time, the source and the rebuilt document looked
+            # at through the observers, the same text rebuilt a second time — source objects and second rebuild must
+            # repeat `final`
+            try:
+                observe_all(w)
+                if json.dumps(root.json) != text:
+                    res['hist'] = ['export-again', 'the JSON view of the same document taken a second time differs']
+                else:
+                    new2 = parse_pagexml_from_json(json.loads(text))
+                    d = diff_dumps(res['final'], w.dump())
+                    if d:
+                        res['hist'] = ['reread', f'source / rebuilt objects read again after a second export and rebuild: {d}']
+                    else:
+                        w2 = World()
+                        w2.objs = olds + [follow(new2, p) for p in paths]
+                        d = diff_dumps(res['final'], w2.dump())
+                        if d:
+                            res['hist'] = ['second-rebuild', f'the same JSON (dictionary form) rebuilt a second time: {d}']
+            except Exception as e:  # noqa
+                res['hist'] = ['raises-later', f'exporting / rebuilding again raised {err_name(e)}']
             _JSON_CACHE[id(case)] = res
             return res
         raise ValueError(case.kind)
@@ -1389,6 +1463,8 @@ class C02(Check):
         elif 'final' in out:
             for key, what in judge_dump(out['final'], {}, f'after {case.kind}'):
                 report(f'{case.kind}:{key}', what)
+            if out.get('hist'):
+                report(f'{case.kind}:{out["hist"][0]}', out['hist'][1])
         elif case.kind == 'parse':
             report('parse:error', f'a valid document was rejected: {out}')
         return fs
@@ -1401,6 +1477,14 @@ class C02(Check):
                    for o in case.input['ops'])
 
     def shrink_candidates(self, case: Case):
+        for c in self._shrink_candidates(case):
+            if case.kind == 'history' and case.input.get('observe'):
+                c = Case(c.kind, dict(c.input, observe=True), c.tags)
+            yield c
+        if case.kind == 'history' and case.input.get('observe'):
+            yield Case('history', {k: v for k, v in case.input.items() if k != 'observe'}, case.tags)
+
+    def _shrink_candidates(self, case: Case):
         if case.kind == 'history':
             ops = case.input['ops']
             # shorter prefixes first
